@@ -4,6 +4,7 @@ import (
 	"encoding/json"
 	"fmt"
 	"sort"
+	"strings"
 
 	"cuelabs.dev/go/oci/ociregistry"
 	"verifsim/core"
@@ -11,19 +12,22 @@ import (
 
 // GenConfig is the swarm configuration of the operation generator for one run.
 type GenConfig struct {
-	Repos        []string // valid repository names in play
-	BadRepos     []string // invalid names (only ever used for writes)
-	Tags         []string
-	MaxBlob      int
-	Weights      [NumKinds]int
-	BadPush      bool // pushes whose declared digest / size disagree with the content
-	ContentFault bool // content readers that fail mid-stream
-	EmptyBlobMT  bool // PushBlob with an empty media type (only Digest and Size are documented as used)
-	AltAlgo      bool // sha512 / sha384 digests
-	HTTPSafe     bool // only calls HTTP carries faithfully (declared size = length, non-empty media types)
-	Stops        bool // listing consumers that decline early
-	Uploads      bool
-	SmallReads   bool
+	Repos    []string // valid repository names in play
+	BadRepos []string // invalid names (only ever used for writes)
+	Tags     []string
+	MaxBlob  int
+	Weights  [NumKinds]int
+	BadPush  bool // pushes whose declared digest / size disagree with the content
+	// MalformedDigest: some of those pushes declare something that is no digest at all
+	// (direct use of a registry only: such a thing cannot be put into a request)
+	MalformedDigest bool
+	ContentFault    bool // content readers that fail mid-stream
+	EmptyBlobMT     bool // PushBlob with an empty media type (only Digest and Size are documented as used)
+	AltAlgo         bool // sha512 / sha384 digests
+	HTTPSafe        bool // only calls HTTP carries faithfully (declared size = length, non-empty media types)
+	Stops           bool // listing consumers that decline early
+	Uploads         bool
+	SmallReads      bool
 	// Motifs: now and then a short scripted history with seeded parameters is woven
 	// into the random one (nested references with members deleted before tagging,
 	// references filled in after tagging ...): multi-step shapes a uniform draw of
@@ -379,7 +383,14 @@ func (g *Gen) Next() *Op {
 			op.Digest = Sum([]string{"sha512", "sha384"}[g.C.Int("blob.alg", 2)], op.Data)
 		}
 		if g.Cfg.BadPush && g.C.Bool("blob.bad", 1, 8) {
-			switch g.C.Int("blob.badkind", 4) {
+			nk := 4
+			if g.Cfg.MalformedDigest {
+				nk = 5
+			}
+			switch g.C.Int("blob.badkind", nk) {
+			case 4:
+				good := string(Sha256(op.Data))
+				op.Digest = ociregistry.Digest([]string{"", "sha256:zz", "sha256:" + strings.ToUpper(good[7:]), "md5:d41d8cd98f00b204e9800998ecf8427e", good[:len(good)-1], "sha256", good + "0"}[g.C.Int("blob.malformed", 7)])
 			case 0:
 				op.Digest = g.randomDigest()
 			case 1:
